@@ -358,6 +358,18 @@ func (s *IndexedState) add(ctx *Context, id string, x Map) (string, error) {
 		if err != nil {
 			Log(ERROR, ctx, "IndexedState.add", "state", s.Name, "error", err,
 				"when", "addHook")
+			// The add is refused, so whatever was stored under
+			// this id stays: put the rule index back.
+			if rule != nil {
+				if _, scheduled := rule["schedule"]; !scheduled {
+					s.unindexRule(ctx, id, rule)
+				}
+			}
+			if replaced != nil {
+				if _, scheduled := replaced["schedule"]; !scheduled {
+					s.indexRule(ctx, id, replaced)
+				}
+			}
 			return "", err
 		}
 	}
